@@ -89,7 +89,50 @@ def cases(tier):
     depth = 4 if tier == "thorough" else 3
     for h in explore.histories(list(range(len(HALPHA))), depth):
         out.append(dict(kind="history", ops=[HALPHA[i] for i in h]))
+    # plugin integrators inside the shooting methods (no reference model of their arithmetic: the parametric OCP
+    # is compared with the same OCP declared with the values written in, on the real code)
+    for meth in ("MS", "SS"):
+        for ig in ("cvodes", "collocation"):
+            for pg in ("scalar", "mat"):
+                for pc in (None, "control", "control+", "both"):
+                    for hz in ("fixed", "Tparam", "t0param"):
+                        for M in (1, 2):
+                            if M == 2 and not (pc in (None, "both") and hz != "t0param"):
+                                continue
+                            d = P.case(state="vec2", pg=pg, pc=pc, horizon=hz, method=meth, intg=ig, N=2, M=M, rhs="nl_t")
+                            d["cons"] = [P.con("bc0")]; d["obj"] = ["mayer_tf", "integral"] + (["integral_pc"] if pc else [])
+                            d["pvals"] = {"pg": 0.45} if pg == "scalar" else {}
+                            out.append(dict(kind="plugin_twin", d=d, dev=[meth, ig, pg, str(pc), hz]))
     return out
+
+
+def run_plugin_twin(case):
+    import sys
+    d = case["d"]
+    tags = _trans.tags_of(d) + ["plugin_twin"]
+    vios = []
+    try:
+        r1 = P.declare(d); nlp1 = NL.Nlp(r1.ocp)
+        r2 = P.declare(d, const_params=True); nlp2 = NL.Nlp(r2.ocp)
+        if nlp1.nx != nlp2.nx:
+            vios.append(dict(sig="value:const-twin:nvars", tags=tags, detail="%d vs %d decision variables" % (nlp1.nx, nlp2.nx)))
+        else:
+            pts = [NL.generic(nlp1.nx, q, core.get_seed() if hasattr(core, "get_seed") else 0, lo=0.2, hi=1.1) for q in range(3)]
+            f1, ra = NL.canon_rows(nlp1, pts)
+            f2, rb = NL.canon_rows(nlp2, pts)
+            if not NL.close(f1, f2, 1e-6):
+                vios.append(dict(sig="value:const-twin:obj", tags=tags, detail="objective %s vs constants-written-in %s" % (f1[:2], f2[:2])))
+            ref = [dict(kind=r["kind"], fp=r["fp"], origin="const:%d" % r["idx"]) for r in rb]
+            missing, extra = NL.match_rows(ra, ref, tol=1e-6)
+            extra = [e for e in extra if not NL.vacuous(e)]
+            if missing or extra:
+                vios.append(dict(sig="value:const-twin:rows", tags=tags, detail="%d rows of the constant OCP not found, %d rows only in the parametric NLP" % (len(missing), len(extra))))
+    except Exception as e:
+        fr = core.rockit_frame(sys.exc_info()[2])
+        if fr is None and not isinstance(e, (RuntimeError, AssertionError)):
+            raise
+        vios.append(dict(sig="exception:plugin_twin:%s" % (fr or type(e).__name__), tags=tags, detail="%s: %s" % (type(e).__name__, str(e)[:200])))
+    return dict(violations=vios, evaluations=3, traces=2, transitions=2, outcome=explore.sha([_trans.compact(d), [v["sig"] for v in vios]]), nontrivial=True, sample=dict(d=_trans.compact(d)))
 
 
 def const_twin(case, res, tags):
@@ -124,6 +167,8 @@ def const_twin(case, res, tags):
 def run_case(case):
     if case["kind"] == "product":
         return _trans.run_trans(case, OWN, extra_check=const_twin)
+    if case["kind"] == "plugin_twin":
+        return run_plugin_twin(case)
     out = hist.run_history(HBASE, case["ops"])
     tags = []
     seen_tr = False
@@ -139,6 +184,6 @@ def run_case(case):
 
 def describe(tier):
     return dict(
-        rule="(a) deviation-bounded enumeration over parameter kind (global scalar / 2x2 matrix / per-interval / per-interval+include_last / parametric T / parametric t0) x place of use (rhs, bound, objective, initial condition) x value alphabet (two generic values, unit tables per column, unit matrices per element) x method/N/M/grid/degree: all NLP data vs the reference evaluated with the declared values, and vs the same OCP declared on the real code with the values written in as constants; (b) every history of length <= d over {set_value(p,a|b), set_value(q,A|B), set_value(vertcat(p,T),..), query, solve, subject_to, method}: next solve = fresh OCP with the final values (whole parameter vector compared)",
+        rule="(c) plugin integrators (cvodes, collocation) inside MS / SS x parameter kinds x parametric horizons x M: parametric NLP = the NLP of the same OCP with the global / horizon values written in (rows and objective at 3 generic points, 1e-6); (a) deviation-bounded enumeration over parameter kind (global scalar / 2x2 matrix / per-interval / per-interval+include_last / parametric T / parametric t0) x place of use (rhs, bound, objective, initial condition) x value alphabet (two generic values, unit tables per column, unit matrices per element) x method/N/M/grid/degree: all NLP data vs the reference evaluated with the declared values, and vs the same OCP declared on the real code with the values written in as constants; (b) every history of length <= d over {set_value(p,a|b), set_value(q,A|B), set_value(vertcat(p,T),..), query, solve, subject_to, method}: next solve = fresh OCP with the final values (whole parameter vector compared)",
         bound="k<=%d deviations; history depth %d" % ((3, 4) if tier == "thorough" else (2, 3)),
         assumptions=["CasADi Function evaluation and Opti bookkeeping are trusted", "generic-point alphabet", "per-interval parameters have no constant form: they are compared with the reference only"])
